@@ -52,10 +52,11 @@ func loadKnown(path string) ([]KnownFinding, error) {
 
 type Lock struct {
 	Obligations map[string]map[string]string `json:"obligations"` // property -> obligation -> status
+	Covers      map[string]map[string]string `json:"covers"`      // property -> obligation -> "sat" (reachable on the reference tree; thorough tier)
 }
 
 func loadLock(path string) *Lock {
-	l := &Lock{Obligations: map[string]map[string]string{}}
+	l := &Lock{Obligations: map[string]map[string]string{}, Covers: map[string]map[string]string{}}
 	data, err := os.ReadFile(path)
 	if err == nil {
 		json.Unmarshal(data, l)
@@ -162,6 +163,50 @@ func checkMain(args []string) int {
 	work, _ := os.MkdirTemp("", "vcgen-"+id)
 	defer os.RemoveAll(work)
 	solveAll(pr.obls, work, timeout, all)
+	// thorough tier: a reachability cover behind every named obligation —
+	// its guard must be satisfiable together with everything assumed before
+	// it (contradictory invariants, assumed contracts or call-site
+	// assumptions would otherwise discharge everything vacuously)
+	var covers []*Obligation
+	if *tier == "thorough" {
+		// one cover per distinct guard of a function: the one with the most
+		// assumptions in front of it (largest mark) subsumes the others
+		byGuard := map[string]*Obligation{}
+		var orderKeys []string
+		add := func(o *Obligation, name string) {
+			if o.Guard == "true" || o.Guard == "false" || o.Ctx == nil {
+				return
+			}
+			key := o.Func + "\x00" + o.Guard
+			if old, ok := byGuard[key]; ok {
+				if o.Mark > old.Mark {
+					old.Mark = o.Mark
+				}
+				old.Text += ", " + name
+				return
+			}
+			cv := &Obligation{Name: "cover:" + name, Kind: "cover", Func: o.Func, Mark: o.Mark, Guard: o.Guard, Goal: "false",
+				Text: "the guard is reachable under the assumptions; it guards " + name, Ctx: o.Ctx, Pos: o.Pos}
+			byGuard[key] = cv
+			orderKeys = append(orderKeys, key)
+		}
+		for _, o := range pr.obls {
+			if o.Kind == "vacuity" || o.Kind == "structural" || o.Kind == "lemma" || o.Safety {
+				continue
+			}
+			if len(o.SubObls) > 0 {
+				for i, sub := range o.SubObls {
+					add(sub, fmt.Sprintf("%s.edge%d", o.Name, i))
+				}
+				continue
+			}
+			add(o, o.Name)
+		}
+		for _, k := range orderKeys {
+			covers = append(covers, byGuard[k])
+		}
+		solveAll(covers, work, 20, false)
+	}
 
 	known, err := loadKnown(filepath.Join(*root, "known_findings.jsonl"))
 	if err != nil {
@@ -370,6 +415,25 @@ func checkMain(args []string) int {
 			undecided = append(undecided, fmt.Sprintf("%s: %s (%s) [%s]", o.Name, o.Status, o.Text, o.Pos))
 		}
 	}
+	coverSat, coverWeak, coverUnknown := 0, 0, 0
+	coverUnsat := []string{}
+	lockedCovers := lock.Covers[id]
+	for _, cv := range covers {
+		solverSeconds += cv.Seconds
+		switch {
+		case cv.Status == "sat" && cv.Phase == "B":
+			coverSat++
+		case cv.Status == "sat":
+			coverWeak++
+		case cv.Status == "unsat":
+			coverUnsat = append(coverUnsat, cv.Name)
+			if lockedCovers[cv.Name] == "sat" {
+				undecided = append(undecided, fmt.Sprintf("%s: the obligation was reachable on the reference tree and is vacuous now (its guard contradicts the assumptions)", cv.Name))
+			}
+		default:
+			coverUnknown++
+		}
+	}
 	// vacuity of the whole run and missing locked named obligations
 	if total == 0 {
 		undecided = append(undecided, "no obligations were generated")
@@ -453,6 +517,8 @@ func checkMain(args []string) int {
 			"undecided":                undecided,
 			"translation_drops":        keys(dropped),
 			"all_solvers_must_agree":   all,
+			"reachability_covers": map[string]interface{}{"generated": len(covers), "sat": coverSat, "sat_without_quantified_assumptions_only": coverWeak,
+				"inconclusive": coverUnknown, "unreachable": coverUnsat},
 		},
 		"assumptions": keys(trusted),
 		"wall_s":      round3(time.Since(start).Seconds()),
@@ -479,6 +545,15 @@ func checkMain(args []string) int {
 				}
 			}
 			lock.Obligations[id] = m
+			if *tier == "thorough" {
+				cm := map[string]string{}
+				for _, cv := range covers {
+					if cv.Status == "sat" {
+						cm[cv.Name] = "sat"
+					}
+				}
+				lock.Covers[id] = cm
+			}
 			writeJSON(filepath.Join(*root, "obligations.lock"), lock)
 		}
 	}
